@@ -1,6 +1,12 @@
 (* C19: CNF export.
-   correspondence: the extracted to_cnf on the dumped node vector = the implementation's clause
-     list (exact: clause order and literal order) and num_variables; same panic site.
+   correspondence: the extracted to_cnf (the code after the repair F20: constants and childless
+     operations are empty operations with a Tseitin variable of their own) on the dumped node
+     vector = the implementation's clause list (exact: clause order and literal order) and
+     num_variables.  Vectors with true / false nodes and childless and/or nodes (the classes of
+     the repaired findings K5 and K10) are ordinary compared cases and are counted in STAT lines.
+     If the implementation panics, that is a violation (the property demands a CNF for every
+     loaded model); the panic site is then compared with to_cnf_v0 (the code before the repair),
+     so that a run against an unrepaired tree reports the old signatures and nothing else.
    oracle (independent of the model): an exact model counter (DPLL + unit propagation, total
      assignments over the DECLARED variables 1..V) on the implementation's clauses, compared with
      the source formula's model count; the projection of the CNF's models onto 1..n must be the
@@ -76,7 +82,8 @@ let brute_count nv (cls : int array array) =
   done;
   !k
 
-(* the first node of the vector on which the walk of Cnf::from cannot continue *)
+(* the first node of the vector on which the walk of Cnf::from could not continue BEFORE the
+   repair F20 (classification of an implementation panic; input-class statistics) *)
 let first_offender (c : Model.ntype list) : string option =
   List.find_map (function
       | Model.TrueN -> Some "true-node"
@@ -100,6 +107,18 @@ let check (b : block) : verdict list =
     let out = ref [] in
     let add v = out := v :: !out in
     let model = Model.to_cnf c (Conv.nat_of_int n) in
+    (* input classes of the repaired findings K5 / K10 (ordinary cases since F20) *)
+    let has p = List.exists p c in
+    let cls_true = has (function Model.TrueN -> true | _ -> false)
+    and cls_false = has (function Model.FalseN -> true | _ -> false)
+    and cls_and0 = has (function Model.And [] -> true | _ -> false)
+    and cls_or0 = has (function Model.Or [] -> true | _ -> false) in
+    if cls_true then bump "class_true_node";
+    if cls_false then bump "class_false_node";
+    if cls_and0 then bump "class_childless_and";
+    if cls_or0 then bump "class_childless_or";
+    if cls_true || cls_false || cls_and0 || cls_or0 then bump "class_any_constant" else bump "class_no_constant";
+    let constant_class = cls_true || cls_false || cls_and0 || cls_or0 in
     (* the hypotheses of the C19 theorems (WF, all_reachable), discharged per input by the verified checker *)
     if Model.check_wf c (Conv.nat_of_int n) then bump "theorem_hypotheses_check_wf_accepted"
     else add (Diff ("check_wf", "loaded vector rejected by check_wf (hypothesis of the C19 theorems)"));
@@ -118,12 +137,14 @@ let check (b : block) : verdict list =
           add (Viol ("to_cnf:empty-operation", Printf.sprintf
                        "Cnf::from panicked on a circuit with a childless and/or node (dead branch) (%s)" msg))
         | _ -> add (Viol ("to_cnf:panic", Printf.sprintf "Cnf::from panicked (%s)" msg)));
-       (match model with
+       (* the repaired model never panics on these vectors; an implementation that still does is
+          the code before the repair F20: its panic site must be the one of to_cnf_v0 *)
+       (match Model.to_cnf_v0 c (Conv.nat_of_int n) with
         | Model.Panic p ->
-          bump ("model_panic_" ^ panic_name p);
+          bump ("impl_panics_like_v0_" ^ panic_name p);
           let expected = (match off with Some o -> o = panic_name p | None -> false) in
-          if not expected then add (Diff ("panic-site", "model panics with " ^ panic_name p ^ ", impl: " ^ msg))
-        | Model.Ok _ -> add (Diff ("panic", "implementation panicked (" ^ msg ^ ") but the model returns a CNF")))
+          if not expected then add (Diff ("panic-site", "to_cnf_v0 panics with " ^ panic_name p ^ ", impl: " ^ msg))
+        | Model.Ok _ -> add (Diff ("panic", "implementation panicked (" ^ msg ^ ") but neither to_cnf nor to_cnf_v0 does")))
      | None ->
        let impl_cls = List.map (List.map int_of_string) (impl_all b "clause") in
        let impl_nv, impl_nc = match impl b "header" with
@@ -137,6 +158,7 @@ let check (b : block) : verdict list =
           let (hv, hc) = Model.header_of f in
           let m_nv = Conv.int_of_nat hv and m_nc = Conv.int_of_nat hc in
           bump "clause_lists_compared";
+          if constant_class then bump "clause_lists_compared_constant_classes";
           bump_by "clauses_compared" (List.length m_cls);
           if m_cls <> impl_cls then
             add (Diff ("clauses", Printf.sprintf "clause lists differ: model [%s] impl [%s]"
@@ -193,6 +215,7 @@ let check (b : block) : verdict list =
                   proj := !m :: !proj
                 end);
             bump "cnfs_counted";
+            if constant_class then bump "cnfs_counted_constant_classes";
             if string_of_int !cnt <> expected then
               add (Viol ("to_cnf:count", Printf.sprintf
                            "the CNF has %d models over its %d declared variables, the model has %s" !cnt declared expected));
